@@ -263,3 +263,26 @@ class Scoreboard:
 
     def done(self):
         return self._done or self.force
+
+
+class ActivityWatch:
+    """Force-ends a run when no handshake has been logged by any of the given monitors for `quiet`
+    cycles after `coop_from` (a hung bus would otherwise run to the cycle cap)."""
+    def __init__(self, mons, coop_from, quiet=150):
+        self.mons, self.coop_from, self.quiet = mons, coop_from, quiet
+        self.force = False
+        self.tot = -1
+        self.last = 0
+        self.stalled = None
+
+    def signals(self):
+        return []
+
+    def step(self, v, c):
+        t = sum(len(m.log) for m in self.mons)
+        if t != self.tot:
+            self.tot, self.last = t, c
+        elif c >= self.coop_from and c - max(self.last, self.coop_from) > self.quiet:
+            self.force = True
+            self.stalled = {"cycle": c, "last_move": self.last}
+        return None
